@@ -1,5 +1,6 @@
 #include "prog.hpp"
 #include "model.hpp"
+#include "bigcase.hpp"
 
 static Json acc_json(const Access &a) {
     Json j = Json::obj();
@@ -26,7 +27,7 @@ static Json op_json(const Op &op) {
     bool anya = false; for (auto x : op.a) if (x) anya = true;
     if (anya) { Json a = Json::arr(); for (auto x : op.a) a.push(x); j.set("a", a); }
     if (!op.dims.empty()) j.set("dims", Json::from(op.dims));
-    if (op.kind == OP_PUT_ATT) { j.set("att_type", op.att.type).set("att_v", Json::from(op.att.v)); }
+    if (op.kind == OP_PUT_ATT || op.kind == OP_BIGCASE) { j.set("att_type", op.att.type).set("att_v", Json::from(op.att.v)); }
     if (!op.coll) j.set("coll", false);
     if (!op.acc.empty()) { Json a = Json::arr(); for (auto &x : op.acc) a.push(acc_json(x)); j.set("acc", a); }
     if (!op.waits.empty()) { Json a = Json::arr(); for (auto &w : op.waits) { Json o = Json::obj(); o.set("active", w.active).set("mode", w.mode).set("slots", Json::from(w.slots)); a.push(o); } j.set("waits", a); }
@@ -91,6 +92,7 @@ std::string op_to_string(const Op &op, int rank) {
     switch (op.kind) {
     case OP_CREATE: s += ",'" + op.name + "',CDF-" + std::to_string(op.a[0]); break;
     case OP_OPEN: s += ",'" + op.name + "'," + (op.a[0] ? "rw" : "ro"); break;
+    case OP_BIGCASE: s += "," + bigcase_text(bigcase_decode(op.att.v)); break;
     case OP_DEF_DIM: s += ",'" + op.name + "'," + std::to_string(op.a[0]); break;
     case OP_DEF_VAR: s += ",'" + op.name + "'," + nc_type_name((int)op.a[0]) + ",dims=" + vec_s(op.dims); break;
     case OP_PUT_ATT: s += ",var=" + std::to_string(op.var) + ",'" + op.name + "'," + nc_type_name(op.att.type) + ",n=" + std::to_string(op.att.v.size()); break;
